@@ -316,14 +316,14 @@ func c11Run(e *Env) {
 					class = "datagram"
 				}
 				sig := fmt.Sprintf("nested-operation-stalled:%s:%s", c11KindNames[in.kind], class)
-				if ownMIDCollision {
-					// the nested operation's own message ID equals the message ID of a request that is still inside
-					// its handler: its answer queues up behind the per-message-ID lock held by that handler
-					sig = "nested-operation-stalled:own-message-id-equals-request-in-handler"
-				} else if dupInHandler {
+				if dupInHandler {
 					// a duplicate of a request that is still inside its handler was delivered earlier in this run:
 					// the replacement reader loop is stuck on the per-message-ID lock and everything behind it stalls
 					sig = "nested-operation-stalled:duplicate-of-request-in-handler"
+				} else if ownMIDCollision {
+					// the nested operation's own message ID equals the message ID of a request that is still inside
+					// its handler (repaired: acknowledgements no longer take the per-message-ID lock)
+					sig = "nested-operation-stalled:own-message-id-equals-request-in-handler"
 				}
 				e.Violate("C11.R4", sig, "the answer to the %s issued by the handler of message n=%d was handed to the connection in phase %d, but the operation has not returned (phase %d): processing does not continue while the handler waits", c11KindNames[in.kind], in.nonce, in.nestedAnswerPhase, ph)
 			}
